@@ -131,6 +131,31 @@ def _has_cubic_glyf(font):
     return False
 
 
+def _quantisation_budget(font, name, depth=0):
+    """2**-14 x sum over the glyph's gvar tuples of (largest |delta| x sum of the tent slopes over its axes), components
+    included: how far a point can move when every normalised coordinate moves by one 2.14 step"""
+    memo = font.__dict__.setdefault("_verif_qbudget", {})
+    if name in memo:
+        return memo[name]
+    b = 0.0
+    try:
+        for tv in font["gvar"].variations.get(name, []):
+            m = max((max(abs(d[0]), abs(d[1])) for d in tv.coordinates if d is not None), default=0)
+            slope = 0.0
+            for s_, p_, e_ in tv.axes.values():
+                w = min(x for x in (p_ - s_, e_ - p_) if x > 0) if (p_ - s_ > 0 or e_ - p_ > 0) else 1.0
+                slope += 1.0 / w
+            b += m * slope / 16384.0
+        g = font["glyf"][name]
+        if g.isComposite() and depth < 8:
+            for c in g.components:
+                b += _quantisation_budget(font, c.glyphName, depth + 1)
+    except Exception:
+        b = 0.0
+    memo[name] = b
+    return b
+
+
 def check_glyph(font, glyphSet, hbf, ft_get, name, gid, loc, acc, case, kinds, degen=None):
     """Compare one glyph. Returns (ncontours or None)."""
     from fontTools.pens.recordingPen import DecomposingRecordingPen
@@ -161,6 +186,9 @@ def check_glyph(font, glyphSet, hbf, ft_get, name, gid, loc, acc, case, kinds, d
         return None
     B = geom.canon(hbf.draw(gid), tol=degen)
     tol = (VARC_TOL if "VARC" in font else PT_TOL) + (degen if degen > DEGEN else 0.0)
+    if loc and "gvar" in font and "glyf" in font:
+        # HarfBuzz evaluates the variations at normalised coordinates rounded to 2.14, the library at the unrounded ones
+        tol += _quantisation_budget(font, name)
     # representation: both sides drop fully degenerate segments; fontTools' glyf draws implied
     # closing lines which geom makes explicit on both sides
     A = [c for c in A if c["segs"]]
@@ -269,6 +297,8 @@ def compare_font(acc, font, data, index, fid, seed, tier, only=None, gen=None, n
 
     thorough = tier == "thorough"
     locs = _locations(font, seed, nrandom if nrandom is not None else (40 if thorough else 8), fid)
+    if only is not None:
+        locs = [only.get("loc")]  # a replay evaluates the saved location itself (the generated ones depend on the run's seed)
     kinds = []
     if "glyf" in font:
         kinds.append("glyf")
